@@ -167,4 +167,31 @@ def releaseSlots (l : NL) (slots : List ASlot) : NL :=
            index := if l.lastFailed.isSome then ((slots.map (fun s => (s.node : Int))).foldl min ((slots.map (fun s => (s.node : Int))).headD 0)) - 1 else l.index,
            lastFailed := none }
 
+/-! ### placements supplied by the application: `Node.allocate_slot(slot)` with its consistency checks -/
+
+/-- every named entry exists, is not DOWN and has room for the occupation asked for (each entry is
+    judged against the node as it is: `BUSY - occupation >= ro.occupation`) -/
+def roomFor (l : List (Option Int)) (taken : List (Nat × Nat)) : Bool :=
+  taken.all (fun e => match l[e.1]? with
+                      | some (some v) => decide ((e.2 : Int) ≤ 16 - v)
+                      | _             => false)
+
+/-- `allocate_slot(slot, _check=True)`; `none` = the slot is refused (AssertionError / TypeError) -/
+def allocChecked (n : ANode) (s : ASlot) : Option ANode :=
+  if s.node = n.index ∧ roomFor n.cores s.cores = true ∧ roomFor n.gpus s.gpus = true
+     ∧ (s.lfs = 0 ∨ (s.lfs : Int) ≤ n.lfs) ∧ (s.mem = 0 ∨ (s.mem : Int) ≤ n.mem)
+  then some (allocate n s) else none
+
+/-- the application places a slot of its own on node `pos` of the node list -/
+def allocApp (l : NL) (pos : Nat) (s : ASlot) : Option NL :=
+  match l.nodes[pos]? with
+  | none   => none
+  | some n =>
+    match allocChecked n s with
+    | none    => none
+    | some n' => some { l with nodes := setNode l.nodes pos n' }
+
+/-- a slot names each core and each GPU at most once -/
+def slotWF (s : ASlot) : Bool := decide ((s.cores.map (·.1)).Nodup) && decide ((s.gpus.map (·.1)).Nodup)
+
 end RPVerif.NodeList
